@@ -33,9 +33,11 @@ fn main() {
         let line = line.unwrap();
         let Some(hist) = parse_behaviour_line(&line) else { continue };
         n += 1;
-        if samples.len() < 2 { samples.push(J::Array(hist.clone())); }
-        if hist.iter().any(|a| a["a"] == "expect" && a["inv"].as_array().map_or(false, |v| !v.is_empty())) {
+        let is_nontrivial = hist.iter().any(|a| a["a"] == "expect" && a["inv"].as_array().map_or(false, |v| !v.is_empty()));
+        if is_nontrivial {
             nontrivial += 1;
+            // written-out samples: short non-trivial behaviours say more than the first trivial ones
+            if samples.len() < 2 && hist.len() <= 24 { samples.push(J::Array(hist.clone())); }
         }
         let ms = run_behaviour(&hist, maxh);
         if !ms.is_empty() {
